@@ -1,4 +1,4 @@
-import AndaVerif.Proofs.BeliefCollect
+import AndaVerif.Proofs.BeliefRename
 /-
 Property C20 — belief is projected: silence is not rejection, repetition is not support.
 Theorems over `AndaVerif.Model.Belief` (the model of projection/mod.rs and projection/policy.rs).
@@ -6,15 +6,6 @@ Theorems over `AndaVerif.Model.Belief` (the model of projection/mod.rs and proje
 namespace AndaVerif.Belief.C20
 
 open AndaVerif.Belief
-
-/-- A policy is well formed when its resolution is positive and `0 ≤ material ≤ accept`
-(what `Policy::from_settings` enforces; the baseline satisfies it). -/
-def Policy.WF (p : Policy) : Prop := 0 < p.den ∧ 0 ≤ p.material ∧ p.material ≤ p.accept
-
-instance (p : Policy) : Decidable (Policy.WF p) := by unfold Policy.WF; infer_instance
-
-example : Policy.WF Policy.baseline := by decide
-example : Policy.WF Policy.forecast := by decide
 
 /-- **Scores stay within [0,1]**, for every input and both sides (only `den > 0` is needed). -/
 theorem score_range {pol : Policy} (hden : 0 < pol.den) {now : Nat} {rows : List Row} {functional : Bool}
@@ -130,6 +121,20 @@ theorem excluded_contribute_nothing (pol : Policy) (now : Nat) (rows : List Row)
     obtain ⟨_, _, _, _, _, _, rfl⟩ := projectCands_some h
     exact collect_excluded ..
 
+/-- **Lifecycle exclusion is time-independent.** A retracted, superseded, expired or
+unknown-status Assertion is excluded at **every** evaluation instant, under every policy, with the
+reason of its lifecycle state — whatever its validity window, its mode, and whenever it was
+withdrawn (the model's `Row` does not even carry `retracted_at`: the lifecycle stage has no clock).
+Hence (by `excluded_contribute_nothing`) it contributes nothing at every evaluation time. -/
+theorem lifecycle_exclusion_time_independent (pol pol' : Policy) (now now' : Nat) (r : Row)
+    (h : r.status ≠ .active) :
+    eligible pol now r = eligible pol' now' r ∧
+    isEligible pol now r = false ∧
+    exclOf pol now r = some (r.id, match r.status with
+      | .retracted => .retracted | .superseded => .superseded | .expired => .expired | _ => .invalidSchema) := by
+  unfold isEligible candOf exclOf eligible
+  cases hs : r.status <;> simp_all
+
 /-- The reasons are the code's: each lifecycle state, the window, the mode. -/
 example :
     let r : Row := { id := 7, prop := 0, actor := some 1, evidence := [], stance := .support, conf := 9,
@@ -161,5 +166,212 @@ theorem override_changes_identity (k : Nat) (s : Settings) (p : Policy)
     (repeat' split at h) <;> (try cases h) <;>
     simp_all [ite_ok_some_ne_none, parseModesOpt_some_ne_none, parseModesOpt_none, Policy.baseline, Policy.forecast, Policy.rescale,
       Gen.BeliefPolicy.baselineMaterial, Gen.BeliefPolicy.baselineAccept]
+
+-- ------------------------------------------------------------------------------------------
+-- the grouping loop
+-- ------------------------------------------------------------------------------------------
+
+/-- **The projection never fails**: the merge loop's `groups[target]` / `groups.remove(index)` are
+always in range, for every store content, slot, policy and time. -/
+theorem never_panics (pol : Policy) (now : Nat) (rows : List Row) (functional : Bool) (slot : List Nat)
+    (target : Nat) : ∃ a, project pol now rows functional slot target = some a :=
+  project_total pol now rows functional slot target
+
+/-- **Groups are the connected components.** For every list of candidates of one side, in every
+order, the incremental merge loop ends with groups that
+(1) are pairwise disjoint, (2) cover exactly the keys seen, (3) put two keys together iff they are
+connected through candidates sharing an actor or an Evidence id, and (4) carry the strongest
+confidence of their component (attained by a member, and bounding every member). -/
+theorem groups_are_components (side : List Cand) :
+    ∃ G, groupsOf [] side = some G ∧
+      G.Pairwise (fun g h => ∀ k, k ∈ g.1 → k ∉ h.1) ∧
+      (∀ k, (∃ g ∈ G, k ∈ g.1) ↔ ∃ c ∈ side, k ∈ c.keys) ∧
+      (∀ k k', (∃ g ∈ G, k ∈ g.1 ∧ k' ∈ g.1) ↔ ((∃ c ∈ side, k ∈ c.keys) ∧ Connected side k k')) ∧
+      (∀ g ∈ G, (∃ c ∈ side, (∀ k ∈ c.keys, k ∈ g.1) ∧ c.conf = g.2) ∧
+        ∀ c ∈ side, (∃ k ∈ c.keys, k ∈ g.1) → c.conf ≤ g.2) :=
+  ⟨groupsSpec [] side, groupsOf_eq [] side, groupsSpec_components side⟩
+
+/-- The bridge of the repo's own unit test, in the order that exercises the removal branch:
+Alice/E1, Bob/E2, then Carol citing both — one group, with the strongest confidence. -/
+example :
+    let mk (id a : Nat) (ev : List Nat) (conf : Int) : Cand :=
+      { id := id, actor := .actor a, evidence := ev, stance := .support, conf := conf, opposes := false }
+    groupsOf [] [mk 0 1 [1] 5, mk 1 2 [2] 6, mk 2 3 [1, 2] 4] =
+      some [([.actor 1, .evidence 1, .actor 3, .evidence 1, .evidence 2, .actor 2, .evidence 2], 6)] := by
+  decide
+
+/-- **Order independence.** For any two recording orders of the same stored Assertions (`List.Perm`)
+both projections answer, with the same status, the same two scores (as exact fractions), the same
+two group counts, the same policy identity, and ledgers that are permutations of each other. -/
+theorem order_independent (pol : Policy) (now : Nat) {rows₁ rows₂ : List Row} (h : rows₁.Perm rows₂)
+    (functional : Bool) (slot : List Nat) (target : Nat) :
+    ∃ a b, project pol now rows₁ functional slot target = some a ∧
+      project pol now rows₂ functional slot target = some b ∧
+      a.status = b.status ∧ a.support = b.support ∧ a.supportGroups = b.supportGroups ∧
+      a.opposition = b.opposition ∧ a.oppositionGroups = b.oppositionGroups ∧
+      a.ledger.supporting.Perm b.ledger.supporting ∧ a.ledger.opposing.Perm b.ledger.opposing ∧
+      a.ledger.uncertain.Perm b.ledger.uncertain ∧ a.ledger.excluded.Perm b.ledger.excluded ∧
+      a.policyId = b.policyId := by
+  obtain ⟨a, b, ha, hb, same⟩ := project_perm pol now h functional slot target
+  exact ⟨a, b, ha, hb, same.status, same.support, same.supportGroups, same.opposition, same.oppositionGroups,
+    same.supporting, same.opposing, same.uncertain, same.excluded, same.policy.1⟩
+
+/-- **Order independence with fresh ids.** Recording the same Assertions in another order also gives
+them other ids (the store assigns ids by insertion). For any injective renaming `ρ` of ids and any
+permutation of the renamed rows, the status, both scores and both group counts are unchanged, and
+each ledger list is a permutation of the renamed one. (Ids reach the aggregation only through the
+synthetic actor key `anonymous:{id}` of an unattributed Assertion.) -/
+theorem order_independent_fresh_ids (pol : Policy) (now : Nat) {ρ : Nat → Nat} (hρ : Function.Injective ρ)
+    {rows₁ rows₂ : List Row} (h : rows₂.Perm (rows₁.map (renRow ρ)))
+    (functional : Bool) (slot : List Nat) (target : Nat) :
+    ∃ a b, project pol now rows₁ functional slot target = some a ∧
+      project pol now rows₂ functional slot target = some b ∧
+      a.status = b.status ∧ a.support = b.support ∧ a.supportGroups = b.supportGroups ∧
+      a.opposition = b.opposition ∧ a.oppositionGroups = b.oppositionGroups ∧
+      b.ledger.supporting.Perm (a.ledger.supporting.map ρ) ∧ b.ledger.opposing.Perm (a.ledger.opposing.map ρ) ∧
+      b.ledger.uncertain.Perm (a.ledger.uncertain.map ρ) ∧
+      b.ledger.excluded.Perm (a.ledger.excluded.map (fun x => (ρ x.1, x.2))) := by
+  obtain ⟨a, m, ha, hm, h1, h2, h3, h4, h5, l1, l2, l3, l4⟩ := project_ren pol now hρ rows₁ functional slot target
+  obtain ⟨b, m', hb, hm', same⟩ := project_perm pol now h functional slot target
+  rw [hm] at hm'
+  cases hm'
+  exact ⟨a, b, ha, hb, h1.trans same.status.symm, h2.trans same.support.symm, h3.trans same.supportGroups.symm,
+    h4.trans same.opposition.symm, h5.trans same.oppositionGroups.symm,
+    l1 ▸ same.supporting, l2 ▸ same.opposing, l3 ▸ same.uncertain, l4 ▸ same.excluded⟩
+
+/-- Two unattributed Assertions are two groups under any ids; recorded in the other order (ids
+swapped) the answer is the same. -/
+example :
+    let row (id : Nat) (conf : Int) : Row :=
+      { id := id, prop := 0, actor := none, evidence := [], stance := .support, conf := conf, mode := some .stated,
+        status := .active, visible := true, validFrom := none, validUntil := none }
+    (project Policy.baseline 0 [row 0 5, row 1 6] false [0] 0).map (fun a => (a.status, a.support, a.supportGroups)) =
+      some (.accepted, ⟨80, 100⟩, 2) ∧
+    (project Policy.baseline 0 [row 0 6, row 1 5] false [0] 0).map (fun a => (a.status, a.support, a.supportGroups)) =
+      some (.accepted, ⟨80, 100⟩, 2) := by
+  decide
+
+/-- The same on `aggregate` alone: the (score, group count) pair of a side is a function of the
+multiset of candidates. -/
+theorem aggregate_order_independent (den : Nat) {c₁ c₂ : List Cand} (h : c₁.Perm c₂) (opposing : Bool) :
+    aggregate den c₁ opposing = aggregate den c₂ opposing := aggregate_perm den h opposing
+
+/-- Order matters to the *representation* of the groups (which is why the proof goes through the
+abstraction): the two orders of the bridge end with different key lists, same answer. -/
+example :
+    let mk (id a : Nat) (ev : List Nat) (conf : Int) : Cand :=
+      { id := id, actor := .actor a, evidence := ev, stance := .support, conf := conf, opposes := false }
+    groupsOf [] [mk 0 1 [1] 5, mk 1 2 [2] 6, mk 2 3 [1, 2] 4] ≠ groupsOf [] [mk 2 3 [1, 2] 4, mk 1 2 [2] 6, mk 0 1 [1] 5] ∧
+    aggregate 10 [mk 0 1 [1] 5, mk 1 2 [2] 6, mk 2 3 [1, 2] 4] false =
+      aggregate 10 [mk 2 3 [1, 2] 4, mk 1 2 [2] 6, mk 0 1 [1] 5] false := by
+  decide
+
+/-- **Repetition is not support.** Add one candidate `c` (recorded anywhere: `cands'` is any
+permutation of `cands ++ [c]`) that shares an actor or an Evidence id with a candidate already on
+its side. Then, with `G` the groups of that side before and `hitsOf c.keys G` the group(s) `c` joins:
+the other side is untouched; the number of groups does not increase; if `c` is not more confident
+than everything in the group(s) it joins the score does not increase; if it joins exactly one group
+and is not more confident than it, score and group count are unchanged; joining exactly one group
+never lowers the score (so there it changes — upwards — only when `c` is stronger). -/
+theorem repetition_no_new_group (den : Nat) (cands : List Cand) (c : Cand) (opposing : Bool)
+    (hside : onSide opposing c = true)
+    (hshare : ∃ c' ∈ cands, onSide opposing c' = true ∧ ∃ k ∈ c'.keys, k ∈ c.keys)
+    {cands' : List Cand} (hperm : cands'.Perm (cands ++ [c])) :
+    ∃ s g s' g',
+      aggregate den cands opposing = some (s, g) ∧ aggregate den cands' opposing = some (s', g') ∧
+      aggregate den cands' (!opposing) = aggregate den cands (!opposing) ∧
+      g' ≤ g ∧
+      ((∃ h ∈ hitsOf c.keys (groupsSpec [] (cands.filter (onSide opposing))), c.conf ≤ h.2) → s'.le s) ∧
+      (∀ h, hitsOf c.keys (groupsSpec [] (cands.filter (onSide opposing))) = [h] → c.conf ≤ h.2 →
+        s' = s ∧ g' = g) ∧
+      (∀ h, hitsOf c.keys (groupsSpec [] (cands.filter (onSide opposing))) = [h] → s.le s') :=
+  aggregate_repetition den cands c opposing hside hshare hperm
+
+/-- Same actor, same confidence, said three times: one group, the same score (tests/belief.rs). -/
+example :
+    let a (id : Nat) : Cand :=
+      { id := id, actor := .actor 1, evidence := [], stance := .support, conf := 6, opposes := false }
+    aggregate 10 [a 0] false = some (⟨6, 10⟩, 1) ∧ aggregate 10 [a 0, a 1, a 2] false = some (⟨6, 10⟩, 1) := by
+  decide
+
+/-- The literal reading "changes a score *only* when it is more confident than everything already
+in its group" is false of the code when the newcomer **bridges** two groups: it is weaker than
+both, and the score drops from 3/4 to 1/2 because the two groups turn out not to be independent
+(this is the behaviour `a_bridging_assertion_collapses_two_groups` tests for). -/
+theorem repetition_literal_reading_counterexample :
+    ∃ (cands : List Cand) (c : Cand),
+      onSide false c = true ∧ (∃ c' ∈ cands, ∃ k ∈ c'.keys, k ∈ c.keys) ∧ (∀ c' ∈ cands, c.conf < c'.conf) ∧
+      aggregate 10 cands false = some (⟨75, 100⟩, 2) ∧ aggregate 10 (cands ++ [c]) false = some (⟨5, 10⟩, 1) :=
+  ⟨[{ id := 0, actor := .actor 1, evidence := [1], stance := .support, conf := 5, opposes := false },
+    { id := 1, actor := .actor 2, evidence := [2], stance := .support, conf := 5, opposes := false }],
+   { id := 2, actor := .actor 3, evidence := [1, 2], stance := .support, conf := 1, opposes := false },
+   by decide, by decide, by decide, by decide, by decide⟩
+
+/-- **Scores never decrease when a confidence rises** (hence when a group's strongest confidence
+rises): for candidate lists that differ only by pointwise larger confidences, each side keeps its
+number of groups and its denominator, and its numerator does not decrease. -/
+theorem score_monotone (den : Nat) {c₁ c₂ : List Cand} (h : RaisedC c₁ c₂) (opposing : Bool) :
+    ∃ s₁ s₂ g, aggregate den c₁ opposing = some (s₁, g) ∧ aggregate den c₂ opposing = some (s₂, g) ∧
+      s₁.den = s₂.den ∧ s₁.num ≤ s₂.num :=
+  aggregate_mono den h opposing
+
+example :
+    let a (conf : Int) : Cand :=
+      { id := 0, actor := .actor 1, evidence := [], stance := .support, conf := conf, opposes := false }
+    let b : Cand := { id := 1, actor := .actor 2, evidence := [], stance := .support, conf := 5, opposes := false }
+    RaisedC [a 3, b] [a 8, b] ∧
+    aggregate 10 [a 3, b] false = some (⟨65, 100⟩, 2) ∧ aggregate 10 [a 8, b] false = some (⟨90, 100⟩, 2) := by
+  intro a b
+  exact ⟨⟨rfl, rfl, rfl, by decide, rfl, rfl, rfl, by decide, trivial⟩, by decide, by decide⟩
+
+-- ------------------------------------------------------------------------------------------
+-- the same two laws on stored rows
+-- ------------------------------------------------------------------------------------------
+
+/-- **Repetition, on stored rows.** Record — at any position of the recording order — one more
+eligible Assertion `r` about the target whose candidate lands on side `opposing` (`support` → false,
+`reject` → true) and shares an actor or an Evidence id with a candidate already on that side
+(possibly a rival's supporter). Then the other side's (score, groups) is unchanged, the groups of
+its side do not increase, the score of its side does not increase unless `r` is more confident than
+everything in the group(s) it joins, and both are unchanged when it joins one group and is not
+stronger. -/
+theorem repetition_rows (pol : Policy) (now : Nat) (rows : List Row) (r : Row) (functional : Bool)
+    (slot : List Nat) (target : Nat) (hr : r.prop = target) {c : Cand} (hc : candOf pol now r = some c)
+    (opposing : Bool) (hside : onSide opposing c = true)
+    (hshare : ∃ c' ∈ (collect pol now rows target (rivalsOf functional slot target)).2,
+      onSide opposing c' = true ∧ ∃ k ∈ c'.keys, k ∈ c.keys)
+    {rows' : List Row} (hperm : rows'.Perm (rows ++ [r])) :
+    ∃ a a', project pol now rows functional slot target = some a ∧
+      project pol now rows' functional slot target = some a' ∧
+      a'.side (!opposing) = a.side (!opposing) ∧
+      (a'.side opposing).2 ≤ (a.side opposing).2 ∧
+      ((∃ h ∈ hitsOf c.keys (groupsSpec [] ((collect pol now rows target (rivalsOf functional slot target)).2.filter
+          (onSide opposing))), c.conf ≤ h.2) → (a'.side opposing).1.le (a.side opposing).1) ∧
+      (∀ h, hitsOf c.keys (groupsSpec [] ((collect pol now rows target (rivalsOf functional slot target)).2.filter
+          (onSide opposing))) = [h] → c.conf ≤ h.2 → a'.side opposing = a.side opposing) :=
+  project_repetition pol now rows r functional slot target hr hc opposing hside hshare hperm
+
+/-- **Monotonicity, on stored rows.** Rewrite the stored confidence of Assertion `i` to a value that
+counts at least as much (an unstated one counts as `policy.unstated`): the ledger and both group
+counts are unchanged and neither score decreases. -/
+theorem score_monotone_rows (pol : Policy) (now : Nat) (rows : List Row) (i : Nat) (c' : Int)
+    (hup : ∀ r ∈ rows, r.id = i → effConf pol r.conf ≤ effConf pol c')
+    (functional : Bool) (slot : List Nat) (target : Nat) :
+    ∃ a b, project pol now rows functional slot target = some a ∧
+      project pol now (raiseRow i c' rows) functional slot target = some b ∧
+      a.ledger = b.ledger ∧ a.supportGroups = b.supportGroups ∧ a.oppositionGroups = b.oppositionGroups ∧
+      a.support.den = b.support.den ∧ a.support.num ≤ b.support.num ∧
+      a.opposition.den = b.opposition.den ∧ a.opposition.num ≤ b.opposition.num :=
+  project_raised pol now (rowsRaised_raiseRow pol i c' rows hup) functional slot target
+
+example :
+    let row (id : Nat) (conf : Int) : Row :=
+      { id := id, prop := 0, actor := some id, evidence := [], stance := .support, conf := conf, mode := some .stated,
+        status := .active, visible := true, validFrom := none, validUntil := none }
+    (project Policy.baseline 0 [row 0 3, row 1 (-1)] false [0] 0).map (fun a => (a.status, a.support)) =
+      some (.uncertain, ⟨65, 100⟩) ∧
+    (project Policy.baseline 0 (raiseRow 0 8 [row 0 3, row 1 (-1)]) false [0] 0).map (fun a => (a.status, a.support)) =
+      some (.accepted, ⟨90, 100⟩) := by
+  decide
 
 end AndaVerif.Belief.C20
